@@ -2,15 +2,35 @@
 /repo/w2c2/array.c (`arrayEnsureCapacitySlowPath`), array.h (`arrayEnsureCapacity`, the `ARRAY_TYPE`
 EnsureCapacity/Append family) and stringbuilder.c (`stringBuilderEnsureCapacity`).
 
-The statements that compute the new capacity are parsed (a small expression grammar over `length`, `*capacity`,
-`newCapacity`, `itemSize`, integer literals, + - * / >> <<, and guarded re-assignments
-`if (a <cmp> b) { newCapacity = e; }`) and emitted as a `GStmt` program; everything around them (the fast-path test,
-the assert, calloc vs. realloc and the byte size handed to realloc, the stores to `*items`/`*capacity`, what Append
-does with the slot) must have exactly the shape the model `Model.Array` assumes, else the extractor stops with
-EXTRACT-FAIL (the check treats that as a broken tie).
+The functions are PARSED (tools/extract/cmini.py) and executed symbolically; what is emitted is the `GStmt` program that
+(re)assigns the new capacity, over the ROLES `length`, `capacity`, `newCapacity`, `itemSize` (bound by parameter position /
+by what is stored into the capacity field — never by a variable's name).  Everything around the growth statements (the
+fast-path test, the assert, calloc vs. realloc and the byte size handed to realloc, the stores to `*items`/`*capacity`, what
+Append does with the slot) must MEAN what the model `Model.Array` assumes, else the extractor stops with EXTRACT-FAIL (the
+check treats that as a broken tie).
+
+Behaviour-preserving rewrites that give the same generated file:
+  * local / parameter names; `const`/`static` qualifiers; declaration position; comments; layout; extra braces
+  * single-assignment `size_t` temporaries and named constants (`static const size_t k = 8;`, `#define K 8`): substituted
+    (a temporary that mentions the new capacity is invalidated when the new capacity is reassigned; a temporary of another
+    type is refused: its conversion could truncate)
+  * integer literals by value (`1U` = `1` = `0x1`); literal-only subexpressions folded (`(4 * 2)` = `8`)
+  * `+` and `*` operands in any order / association (size_t arithmetic is modulo 2^W: commutative and associative)
+  * `x / 2^k` = `x >> k`: every operand here is a `size_t`, and for an UNSIGNED left operand C defines `E1 >> E2` as the
+    integral part of E1 / 2^E2 (C90 6.3.7, C99 6.5.7p5).  `x * 2^k` and `x << k` stay distinct terms (the model evaluates both
+    modulo 2^W anyway); `x / 3`, `x - y` are kept as written
+  * `a < b` = `b > a`, `!(a < b)` = `a >= b`, `!p` = `p == NULL` = `p == 0` = `NULL == p`
+  * `if (c) A else B` = `if (!c) B else A`; `x = c ? a : b;` = if/else assigning x; `MUST (e)` = `if (!(e)) return false;`
+  * `if (fast) return true; return slow(..);` = `if (!fast) return slow(..); return true;` = `return fast || slow(..);`
+  * value-preserving casts (`(size_t)` on a size_t, pointer casts on the allocation result / the items pointer)
+  * `x++` = `++x` = `x += 1` = `x = x + 1` as statements; the two final stores in either order
+What is NOT identified (different facts, the theorems decide): another operand, another operator, another comparison,
+another guard, growth statements in another order, a missing assert / NULL check / store.
 """
 import os
 import re
+
+import cmini as C
 
 GEN_NAME = "Array"
 
@@ -19,84 +39,86 @@ class ExtractFail(Exception):
     pass
 
 
-def _read(repo, name):
-    return open(os.path.join(repo, "w2c2", name)).read()
-
-
-def _strip(src):
-    src = re.sub(r"/\*.*?\*/", " ", src, flags=re.S)
-    src = re.sub(r"\\\n", " ", src)          # macro continuation lines
-    return re.sub(r"\s+", " ", src)
+def _fail(what):
+    raise ExtractFail("EXTRACT-FAIL gen_array: " + what)
 
 
 def _need(m, what):
     if not m:
-        raise ExtractFail("EXTRACT-FAIL gen_array: " + what)
+        _fail(what)
     return m
 
 
-# ---------------------------------------------------------------------------------- expressions
+def _read(repo, name):
+    return open(os.path.join(repo, "w2c2", name)).read()
 
-class _P:
-    """Recursive-descent parser for the size_t expressions of the growth code."""
 
-    PREC = [("<<", ">>"), ("+", "-"), ("*", "/")]          # lowest first
+def _src(repo, name):
+    return C.subst_defines(C.strip_comments(_read(repo, name)))
 
-    def __init__(self, text, names, where):
-        # operands written with a dereference (`*capacity`) are replaced by a plain identifier first, so that a
-        # remaining `*` is always the multiplication
-        names = dict(names)
-        for k in [k for k in names if k.startswith("*")]:
-            ident = "DEREF_" + k[1:]
-            text = re.sub(r"(?<![\w)])\s*\*\s*" + re.escape(k[1:]) + r"\b", " " + ident, " " + text).strip()
-            names[ident] = names.pop(k)
-        self.toks = re.findall(r"0x[0-9a-fA-F]+[uUlL]*|\d+[uUlL]*|[A-Za-z_][\w]*(?:->\w+)?|<<|>>|[()+\-*/]", text)
-        if "".join(self.toks).replace(" ", "") != text.replace(" ", ""):
-            raise ExtractFail(f"EXTRACT-FAIL gen_array: cannot tokenise `{text}` in {where}")
-        self.i = 0
-        self.names = names
-        self.where = where
 
-    def peek(self):
-        return self.toks[self.i] if self.i < len(self.toks) else None
+# ---------------------------------------------------------------------------------- size_t expressions over roles
 
-    def take(self):
-        t = self.peek()
-        self.i += 1
-        return t
+ROLE_KEY = {"length": 0, "lwn": 0, "capacity": 1, "newCapacity": 2, "itemSize": 3}
+OPS = {"+": "add", "-": "sub", "*": "mul", "/": "div", ">>": "shr", "<<": "shl"}
+INT_MAX = 2 ** 31 - 1
 
-    def parse(self):
-        e = self.level(0)
-        if self.peek() is not None:
-            raise ExtractFail(f"EXTRACT-FAIL gen_array: trailing `{self.peek()}` in expression ({self.where})")
+
+def _key(e):
+    if len(e) == 1:
+        return (ROLE_KEY[e[0]], "")
+    if e[0] == "lit":
+        return (4, "%020d" % e[1])
+    return (5, repr(e))
+
+
+def _flat(op, e):
+    return _flat(op, e[1]) + _flat(op, e[2]) if e[0] == op else [e]
+
+
+def _build(op, items):
+    e = items[0]
+    for x in items[1:]:
+        e = (op, e, x)
+    return e
+
+
+def canon(e, abstract=None):
+    """canonical form: see the module doc string.  `abstract` = (G, role): every occurrence of the canonical expression G — also as
+    a sub-sum of a longer sum — is replaced by the role (stringbuilder.c: `lengthWithNull`)."""
+    r = _canon(e, abstract)
+    return abstract[1] if abstract is not None and r == abstract[0] else r
+
+
+def _canon(e, abstract):
+    if len(e) == 1 or e[0] == "lit":
         return e
+    op, a, b = e[0], canon(e[1], abstract), canon(e[2], abstract)
+    if a[0] == "lit" and b[0] == "lit":                 # literal-only: C int arithmetic, folded when it cannot overflow
+        v = {"add": lambda: a[1] + b[1], "mul": lambda: a[1] * b[1], "sub": lambda: a[1] - b[1],
+             "div": lambda: a[1] // b[1] if b[1] else None, "shr": lambda: a[1] >> b[1] if b[1] < 31 else None,
+             "shl": lambda: a[1] << b[1] if b[1] < 31 else None}[op]()
+        if v is not None and 0 <= v <= INT_MAX and a[1] <= INT_MAX and b[1] <= INT_MAX:
+            return ("lit", v)
+    if op == "div" and b[0] == "lit" and b[1] >= 2 and b[1] & (b[1] - 1) == 0:
+        return ("shr", a, ("lit", b[1].bit_length() - 1))          # unsigned left operand (every role is a size_t)
+    if op in ("add", "mul"):
+        items = _flat(op, (op, a, b))
+        if abstract is not None and op == "add":
+            g_items, role = _flat("add", abstract[0]), abstract[1]
+            rest = list(items)
+            try:
+                for g in g_items:
+                    rest.remove(g)
+                items = rest + [role]
+            except ValueError:
+                pass
+        return _build(op, sorted(items, key=_key))
+    return (op, a, b)
 
-    def level(self, k):
-        if k == len(self.PREC):
-            return self.atom()
-        e = self.level(k + 1)
-        while self.peek() in self.PREC[k]:
-            op = self.take()
-            r = self.level(k + 1)
-            e = ({"+": "add", "-": "sub", "*": "mul", "/": "div", ">>": "shr", "<<": "shl"}[op], e, r)
-        return e
 
-    def atom(self):
-        t = self.take()
-        if t is None:
-            raise ExtractFail(f"EXTRACT-FAIL gen_array: unexpected end of expression ({self.where})")
-        if t == "(":
-            e = self.level(0)
-            if self.take() != ")":
-                raise ExtractFail(f"EXTRACT-FAIL gen_array: missing `)` ({self.where})")
-            return e
-        if re.match(r"^\d|^0x", t):
-            t2 = t.rstrip("uUlL")
-            return ("lit", int(t2, 16) if t2.lower().startswith("0x") else int(t2))
-        key = t.replace(" ", "")
-        if key in self.names:
-            return (self.names[key],)
-        raise ExtractFail(f"EXTRACT-FAIL gen_array: unknown operand `{t}` ({self.where})")
+def _mentions(e, role):
+    return e == (role,) or (len(e) == 3 and e[0] != "lit" and (_mentions(e[1], role) or _mentions(e[2], role)))
 
 
 def _lean_expr(e):
@@ -110,61 +132,356 @@ def _lean_expr(e):
 CMP = {"<": "lt", "<=": "le", ">": "gt", ">=": "ge", "==": "eq", "!=": "ne"}
 
 
-def _parse_growth(text, names, target, where):
-    """`text`: statements that (re)assign `target`.  Returns [GStmt as Lean text]."""
-    out = []
-    pos = 0
-    text = text.strip()
-    while pos < len(text):
-        rest = text[pos:]
-        m = re.match(r"(?:const size_t )?" + re.escape(target) + r" = ([^;{}]+); ?", rest)
-        if m:
-            out.append(f".assign {_lean_expr(_P(m.group(1).strip(), names, where).parse())}")
-            pos += m.end()
-            continue
-        m = re.match(r"if \(([^(){}]+?) (<=|>=|==|!=|<|>) ([^(){}]+?)\) \{ " + re.escape(target) + r" = ([^;{}]+); \} ?", rest)
-        if m:
-            a = _P(m.group(1).strip(), names, where).parse()
-            b = _P(m.group(3).strip(), names, where).parse()
-            e = _P(m.group(4).strip(), names, where).parse()
-            out.append(f".ifAssign .{CMP[m.group(2)]} {_lean_expr(a)} {_lean_expr(b)} {_lean_expr(e)}")
-            pos += m.end()
-            continue
-        raise ExtractFail(f"EXTRACT-FAIL gen_array: statement not in the growth grammar near `{rest[:70]}` ({where})")
-    if not out:
-        raise ExtractFail(f"EXTRACT-FAIL gen_array: no assignment to {target} ({where})")
-    return out
+class Sym:
+    """symbolic values of the size_t locals of one function"""
+
+    def __init__(self, where, leaf):
+        self.where = where
+        self.leaf = leaf            # C expression -> role expression | None   (parameters, `*capacity`, `sb->capacity`)
+        self.env = {}               # temporary -> role expression | None (declared, not assigned yet)
+        self.types = {}
+        self.target = None          # the local that holds the new capacity
+        self.target_set = False
+        self.abstract = None
+
+    def declare(self, ty, name, init):
+        self.types[name] = ty
+        if name == self.target:
+            return
+        if ty != "size_t":
+            return                  # other locals (the pointer) are handled by the structure match; using one in arithmetic fails
+        self.env[name] = None if init is None else self.value(init)
+
+    def value(self, e):
+        return canon(self._v(e), self.abstract)
+
+    def _v(self, e):
+        r = self.leaf(e)
+        if r is not None:
+            return r
+        k = e[0]
+        if k == "num":
+            return ("lit", e[1])
+        if k == "cast" and e[1] == "size_t":
+            return self._v(e[2])                       # operands are size_t already: value preserving
+        if k == "id":
+            if e[1] == self.target:
+                if not self.target_set:
+                    _fail(f"{self.where}: the new capacity `{e[1]}` is read before it is assigned")
+                return ("newCapacity",)
+            if e[1] in self.env:
+                if self.env[e[1]] is None:
+                    _fail(f"{self.where}: `{e[1]}` is read before it is assigned (or after the value it was computed from changed)")
+                return self.env[e[1]]
+            if e[1] in self.types:
+                _fail(f"{self.where}: `{e[1]}` of type {self.types[e[1]]} in size_t arithmetic (a conversion may change the value)")
+            _fail(f"{self.where}: unknown operand `{e[1]}`")
+        if k == "bin" and e[1] in OPS:
+            return (OPS[e[1]], self._v(e[2]), self._v(e[3]))
+        _fail(f"{self.where}: expression `{C.show(e)}` is outside the growth grammar")
+
+    def cmp(self, cond):
+        """normalised comparison (op, a, b), the operand with the smaller role key on the left"""
+        c = C.norm_cond(cond)
+        if c[0] != "cmp":
+            _fail(f"{self.where}: condition `{C.show(cond)}` is not a comparison of size_t values")
+        op, a, b = c[1], self.value(c[2]), self.value(c[3])
+        if _key(a) > _key(b):
+            op, a, b = C.FLIP[op], b, a
+        return op, a, b
+
+    def reassigned(self):
+        """the new capacity changed: temporaries computed from its old value are stale"""
+        for n, v in self.env.items():
+            if v is not None and _mentions(v, "newCapacity"):
+                self.env[n] = None
+
+    def growth_stmt(self, s, out):
+        """consume one statement of the growth part; False if `s` is not one"""
+        if s[0] == "decl":
+            if s[2] == self.target:
+                self.types[s[2]] = s[1]
+                if s[1] != "size_t":
+                    _fail(f"{self.where}: the new capacity `{s[2]}` has type {s[1]}, not size_t")
+                if s[3] is not None:
+                    v = self.value(s[3])
+                    self.target_set = True
+                    if v != ("lit", 0) or out:
+                        out.append(f".assign {_lean_expr(v)}")
+                return True
+            self.declare(s[1], s[2], s[3])
+            return True
+        if s[0] == "assign" and s[1][0] == "id" and s[2] == "=":
+            n = s[1][1]
+            if n == self.target:
+                v = self.value(s[3])
+                self.target_set = True
+                self.reassigned()
+                out.append(f".assign {_lean_expr(v)}")
+                return True
+            if n in self.env:
+                self.env[n] = self.value(s[3])
+                return True
+            return False
+        if s[0] == "if" and s[3] is None and len(s[2]) == 1 and s[2][0][0] == "assign" and s[2][0][1] == ("id", self.target) \
+                and s[2][0][2] == "=":
+            op, a, b = self.cmp(s[1])
+            v = self.value(s[2][0][3])
+            self.target_set = True          # model: the local starts at 0 (checked at its declaration)
+            self.reassigned()
+            out.append(f".ifAssign .{CMP[op]} {_lean_expr(a)} {_lean_expr(b)} {_lean_expr(v)}")
+            return True
+        return False
 
 
-# ---------------------------------------------------------------------------------- the three sources
+def _is_deref(e, name):
+    return e == ("un", "*", ("id", name))
+
+
+def _ptr_local_assign(s, ptrs):
+    """`p = <call>` / `void* p = <call>` with p a pointer local -> (p, call expr) else None"""
+    if s[0] == "assign" and s[1][0] == "id" and s[2] == "=" and s[1][1] in ptrs:
+        return s[1][1], C.strip_casts(s[3])
+    return None
+
+
+def _call(e, fname, nargs):
+    return e[0] == "call" and e[1] == ("id", fname) and len(e[2]) == nargs
+
+
+# ---------------------------------------------------------------------------------- array.c: the slow path
 
 def slow_path(repo):
-    src = _strip(_read(repo, "array.c"))
-    m = _need(re.search(r"bool arrayEnsureCapacitySlowPath\( void\*\* items, const size_t length, size_t\* capacity, const size_t itemSize \) \{ (.*?) \} *$", src),
-              "array.c: signature of arrayEnsureCapacitySlowPath")
-    body = m.group(1)
-    m = _need(re.match(r"size_t newCapacity = 0; void\* newItems = NULL; assert\(length > \*capacity\); (.*?) "
-                       r"if \(\*items == NULL\) \{ newItems = calloc\(newCapacity, itemSize\); \} else \{ newItems = realloc\(\*items, (.*?)\); \} "
-                       r"if \(newItems == NULL\) \{ return false; \} \*items = newItems; \*capacity = newCapacity; return true;$", body),
-              "array.c: arrayEnsureCapacitySlowPath no longer has the shape locals / assert(length > *capacity) / growth / "
-              "calloc-or-realloc / NULL check / stores / return true")
-    names = {"length": "length", "*capacity": "capacity", "newCapacity": "newCapacity", "itemSize": "itemSize"}
-    growth = _parse_growth(m.group(1), names, "newCapacity", "array.c arrayEnsureCapacitySlowPath")
-    realloc = _lean_expr(_P(m.group(2).strip(), names, "array.c realloc size").parse())
-    return growth, realloc
+    where = "array.c arrayEnsureCapacitySlowPath"
+    src = _src(repo, "array.c")
+    try:
+        params, body = C.parse_function(src, "arrayEnsureCapacitySlowPath", where)
+    except C.ParseFail as e:
+        _fail(str(e))
+    if [t for t, _n in params] != ["void**", "size_t", "size_t*", "size_t"]:
+        _fail(f"{where}: parameter types {[t for t, _n in params]} (expected void**, size_t, size_t*, size_t)")
+    p_items, p_len, p_cap, p_isz = [n for _t, n in params]
+    if not C.must_macro_ok(_read(repo, "w2c2_base.h")):
+        _fail("w2c2_base.h: MUST(x) is no longer `if (!(x)) return false;`")
+    body = C.normalize(body)
+
+    def leaf(e):
+        if e == ("id", p_len):
+            return ("length",)
+        if e == ("id", p_isz):
+            return ("itemSize",)
+        if _is_deref(e, p_cap):
+            return ("capacity",)
+        return None
+    sym = Sym(where, leaf)
+    # the new capacity is what is stored into *capacity (exactly one such store, at the top level, a plain local)
+    stores = [s for s in body if s[0] == "assign" and _is_deref(s[1], p_cap)]
+    if len(stores) != 1 or stores[0][2] != "=" or stores[0][3][0] != "id":
+        _fail(f"{where}: expected exactly one store `*{p_cap} = <local>;` at the top level of the function")
+    sym.target = stores[0][3][1]
+    ptrs = set(s[2] for s in body if s[0] == "decl" and s[1].endswith("*"))
+    i = 0
+    n = len(body)
+    growth = []
+    asserted = False
+    # --- declarations, the assert, the growth statements
+    while i < n:
+        s = body[i]
+        if s[0] == "expr" and _call(s[1], "assert", 1):
+            if growth:
+                _fail(f"{where}: the assert comes after the first growth statement")
+            if sym.cmp(s[1][2][0]) != (">", ("length",), ("capacity",)):
+                _fail(f"{where}: the assertion is no longer `length > *capacity`")
+            asserted = True
+        elif s[0] == "decl" and s[1].endswith("*"):
+            if s[3] is not None and not C.is_null(s[3]):
+                break
+        elif not sym.growth_stmt(s, growth):
+            break
+        i += 1
+    if not asserted:
+        _fail(f"{where}: assert(length > *capacity) not found before the growth statements")
+    if not growth:
+        _fail(f"{where}: no assignment to the new capacity `{sym.target}`")
+    # --- calloc when *items == NULL, realloc(*items, bytes) otherwise
+    if i >= n or body[i][0] != "if" or body[i][3] is None:
+        _fail(f"{where}: after the growth statements the allocation `if (*items == NULL) calloc else realloc` is expected, "
+              f"found `{body[i][0] if i < n else 'end of function'}`")
+    c = C.norm_cond(C.strip_casts(body[i][1]))
+    if c[0] not in ("isnull", "notnull") or not _is_deref(c[1], p_items):
+        _fail(f"{where}: the allocation is not selected by `*{p_items} == NULL`")
+    first, other = (body[i][2], body[i][3]) if c[0] == "isnull" else (body[i][3], body[i][2])
+    def branch(stmts):
+        """size_t temporaries, then the one assignment of the allocation result"""
+        for s_ in stmts[:-1]:
+            if not (s_[0] in ("decl", "assign") and not (s_[0] == "assign" and s_[1] == ("id", sym.target)) and sym.growth_stmt(s_, [])):
+                return None
+        return _ptr_local_assign(stmts[-1], ptrs) if stmts else None
+    a1 = branch(first)
+    a2 = branch(other)
+    if not a1 or not a2 or a1[0] != a2[0]:
+        _fail(f"{where}: both allocation branches must assign the same pointer local")
+    ptr = a1[0]
+    if not _call(a1[1], "calloc", 2) or sorted(map(sym.value, a1[1][2]), key=_key) != [("newCapacity",), ("itemSize",)]:
+        _fail(f"{where}: the NULL branch is not calloc(newCapacity, itemSize)")
+    if not _call(a2[1], "realloc", 2) or not _is_deref(a2[1][2][0], p_items):
+        _fail(f"{where}: the non-NULL branch is not realloc(*items, bytes)")
+    realloc = sym.value(a2[1][2][1])
+    i += 1
+    # --- NULL check
+    if i >= n or body[i][0] != "if" or body[i][3] is not None or C.norm_cond(body[i][1]) != ("isnull", ("id", ptr)) \
+            or len(body[i][2]) != 1 or body[i][2][0][0] != "return" or not C.is_false(body[i][2][0][1] or ("id", "?")):
+        _fail(f"{where}: `if ({ptr} == NULL) return false;` expected after the allocation")
+    i += 1
+    # --- the two stores, either order; return true
+    seen = set()
+    while i < n and body[i][0] == "assign" and body[i][2] == "=":
+        s = body[i]
+        if _is_deref(s[1], p_items) and C.strip_casts(s[3]) == ("id", ptr):
+            seen.add("items")
+        elif _is_deref(s[1], p_cap) and s[3] == ("id", sym.target):
+            seen.add("capacity")
+        else:
+            break
+        i += 1
+    if seen != {"items", "capacity"}:
+        _fail(f"{where}: the stores `*items = <new block>; *capacity = <new capacity>;` are not both present after the NULL check")
+    if i != n - 1 or body[i][0] != "return" or body[i][1] is None or not C.is_true(body[i][1]):
+        _fail(f"{where}: the function must end with `return true;` right after the stores")
+    return growth, _lean_expr(realloc)
+
+
+# ---------------------------------------------------------------------------------- array.h: fast path, ARRAY_TYPE
+
+def _fast_path_fn(src):
+    where = "array.h arrayEnsureCapacity"
+    try:
+        params, body = C.parse_function(src, "arrayEnsureCapacity", where)
+    except C.ParseFail as e:
+        _fail(str(e))
+    if [t for t, _n in params] != ["void**", "size_t", "size_t*", "size_t"]:
+        _fail(f"{where}: parameter types {[t for t, _n in params]}")
+    p_items, p_len, p_cap, p_isz = [n for _t, n in params]
+    body = [s for s in C.normalize(body)]
+
+    def leaf(e):
+        if e == ("id", p_len):
+            return ("length",)
+        if _is_deref(e, p_cap):
+            return ("capacity",)
+        return None
+    sym = Sym(where, leaf)
+    slow = ("call", ("id", "arrayEnsureCapacitySlowPath"), [("id", p_items), ("id", p_len), ("id", p_cap), ("id", p_isz)])
+
+    def ret(s, pred):
+        return s[0] == "return" and s[1] is not None and pred(s[1])
+    ok = False
+    if len(body) == 2 and body[0][0] == "if" and body[0][3] is None and len(body[0][2]) == 1:
+        inner = body[0][2][0]
+        c = sym.cmp(body[0][1])
+        if c == ("<=", ("length",), ("capacity",)) and ret(inner, C.is_true) and ret(body[1], lambda e: e == slow):
+            ok = True
+        if c == (">", ("length",), ("capacity",)) and ret(inner, lambda e: e == slow) and ret(body[1], C.is_true):
+            ok = True
+    elif len(body) == 1 and body[0][0] == "if" and body[0][3] is not None and len(body[0][2]) == 1 and len(body[0][3]) == 1:
+        c = sym.cmp(body[0][1])
+        t, f = body[0][2][0], body[0][3][0]
+        if c == (">", ("length",), ("capacity",)):
+            c, t, f = ("<=", ("length",), ("capacity",)), f, t
+        ok = c == ("<=", ("length",), ("capacity",)) and ret(t, C.is_true) and ret(f, lambda e: e == slow)
+    elif len(body) == 1 and body[0][0] == "return" and body[0][1] is not None:
+        e = body[0][1]
+        if e[0] == "bin" and e[1] == "||" and e[3] == slow:
+            ok = sym.cmp(e[2]) == ("<=", ("length",), ("capacity",))
+        elif e[0] == "cond":
+            c = sym.cmp(e[1])
+            ok = (c == ("<=", ("length",), ("capacity",)) and C.is_true(e[2]) and e[3] == slow) or \
+                 (c == (">", ("length",), ("capacity",)) and e[2] == slow and C.is_true(e[3]))
+    if not ok:
+        _fail("array.h: arrayEnsureCapacity is no longer `if (length <= *capacity) return true; return slow path(items, length, capacity, itemSize)`")
+
+
+def _array_type_macro(raw):
+    """-> (parameter names, body text) of `#define ARRAY_TYPE(...)` with `A ## B` pasted to A__B"""
+    txt = C.strip_comments(raw)
+    m = _need(re.search(r"#[ \t]*define[ \t]+ARRAY_TYPE\(([^)]*)\)((?:[^\n]*\\\n)*[^\n]*)", txt), "array.h: #define ARRAY_TYPE not found")
+    params = [p.strip() for p in m.group(1).split(",")]
+    if len(params) != 5:
+        _fail(f"array.h: ARRAY_TYPE has {len(params)} parameters (expected NAME, TYPE, INSTANCE, ITEMS, ITEM)")
+    body = m.group(2).replace("\\\n", "\n")
+    body = re.sub(r"(\w+)\s*##\s*(\w+)", r"\1__\2", body)
+    return params, body
 
 
 def fast_path(repo):
-    src = _strip(_read(repo, "array.h"))
-    _need(re.search(r"bool arrayEnsureCapacity\( void\*\* items, const size_t length, size_t\* capacity, const size_t itemSize \) \{ "
-                    r"if \(length <= \*capacity\) \{ return true; \} return arrayEnsureCapacitySlowPath\(items, length, capacity, itemSize\); \}", src),
-          "array.h: arrayEnsureCapacity is no longer `if (length <= *capacity) return true; return slow path`")
-    _need(re.search(r"INSTANCE ## EnsureCapacity\( NAME\* INSTANCE, size_t length \) \{ return arrayEnsureCapacity\( \(void\*\*\)&INSTANCE->ITEMS, length, "
-                    r"&INSTANCE->capacity, sizeof\(TYPE\) \); \}", src),
-          "array.h: ARRAY_TYPE EnsureCapacity wrapper")
-    _need(re.search(r"INSTANCE ## Append\( NAME\* INSTANCE, TYPE ITEM \) \{ const size_t length = INSTANCE->length; const size_t newLength = length \+ 1; "
-                    r"MUST \(INSTANCE ## EnsureCapacity\(INSTANCE, newLength\)\) INSTANCE->ITEMS\[length\] = ITEM; INSTANCE->length = newLength; return true; \}", src),
-          "array.h: ARRAY_TYPE Append is no longer ensure(length+1); items[length] = item; length = length+1")
+    raw = _read(repo, "array.h")
+    _fast_path_fn(C.subst_defines(C.strip_comments(raw)))
+    (NAME, TYPE, INST, ITEMS, ITEM), mb = _array_type_macro(raw)
+    # the struct: size_t length; size_t capacity; TYPE* ITEMS;  (any order)
+    m = _need(re.search(r"typedef\s+struct\s+" + NAME + r"\s*\{([^}]*)\}\s*" + NAME + r"\s*;", mb), "array.h: ARRAY_TYPE struct")
+    fields = sorted(re.sub(r"\s+", " ", f).strip().replace(" *", "*").replace("* ", "*") for f in m.group(1).split(";") if f.strip())
+    if fields != sorted(["size_t length", "size_t capacity", f"{TYPE}*{ITEMS}"]):
+        _fail(f"array.h: ARRAY_TYPE struct fields are {fields}")
+    types = (NAME, TYPE)
+    # --- EnsureCapacity wrapper
+    where = "array.h ARRAY_TYPE EnsureCapacity"
+    try:
+        params, body = C.parse_function(mb, f"{INST}__EnsureCapacity", where, types)
+        body = C.normalize(body)
+        if [t for t, _n in params] != [NAME + "*", "size_t"]:
+            _fail(f"{where}: parameter types {[t for t, _n in params]}")
+        inst, ln = [n for _t, n in params]
+        want = ("call", ("id", "arrayEnsureCapacity"),
+                [("un", "&", ("member", ("id", inst), ITEMS)), ("id", ln), ("un", "&", ("member", ("id", inst), "capacity")), ("sizeof", TYPE)])
+        if len(body) != 1 or body[0][0] != "return" or body[0][1] is None or C.strip_casts(body[0][1]) != want:
+            _fail(f"{where}: is no longer `return arrayEnsureCapacity((void**)&INSTANCE->ITEMS, length, &INSTANCE->capacity, sizeof(TYPE))`")
+        # --- Append
+        where = "array.h ARRAY_TYPE Append"
+        params, body = C.parse_function(mb, f"{INST}__Append", where, types)
+        body = C.normalize(body)
+    except C.ParseFail as e:
+        _fail(str(e))
+    if [t for t, _n in params] != [NAME + "*", TYPE]:
+        _fail(f"{where}: parameter types {[t for t, _n in params]}")
+    inst, item = [n for _t, n in params]
+    cell = {"length": ("length",)}          # INSTANCE->length: symbolic L, rewritten by the store
+
+    def leaf(e):
+        if e == ("member", ("id", inst), "length"):
+            return cell["length"]
+        return None
+    sym = Sym(where, leaf)
+    one = canon(("add", ("length",), ("lit", 1)))
+    ensured = stored = bumped = False
+    for k, s in enumerate(body):
+        if s[0] == "decl" and s[1] == "size_t":
+            sym.declare(s[1], s[2], s[3])
+        elif s[0] == "assign" and s[1][0] == "id" and s[1][1] in sym.env and s[2] == "=":
+            sym.env[s[1][1]] = sym.value(s[3])
+        elif s[0] == "if" and s[3] is None and not ensured:
+            c = C.norm_cond(s[1])
+            call = c[1] if c[0] == "isnull" else None
+            if not (call and _call(call, f"{INST}__EnsureCapacity", 2) and call[2][0] == ("id", inst) and sym.value(call[2][1]) == one
+                    and len(s[2]) == 1 and s[2][0][0] == "return" and s[2][0][1] is not None and C.is_false(s[2][0][1])) or stored or bumped:
+                _fail(f"{where}: `MUST (EnsureCapacity(INSTANCE, length + 1))` expected before the stores")
+            ensured = True
+        elif s[0] == "assign" and s[2] == "=" and s[1][0] == "index" and s[1][1] == ("member", ("id", inst), ITEMS):
+            if not ensured or stored or sym.value(s[1][2]) != (("length",) if not bumped else None) or s[3] != ("id", item):
+                _fail(f"{where}: the element store is no longer `INSTANCE->ITEMS[old length] = ITEM` after the reservation")
+            stored = True
+        elif s[0] == "assign" and s[2] == "=" and s[1] == ("member", ("id", inst), "length"):
+            if not ensured or bumped or sym.value(s[3]) != one:
+                _fail(f"{where}: the length store is no longer `INSTANCE->length = old length + 1` after the reservation")
+            bumped = True
+            if not stored:
+                # the element store that follows must still address the OLD length: only through a temporary computed before
+                cell["length"] = None
+        elif s[0] == "return" and k == len(body) - 1 and s[1] is not None and C.is_true(s[1]):
+            pass
+        else:
+            _fail(f"{where}: unexpected statement `{s[0]}` (Append = reserve length+1; items[length] = item; length = length+1; return true)")
+    if not (ensured and stored and bumped) or body[-1][0] != "return":
+        _fail(f"{where}: Append no longer reserves, stores the item and bumps the length")
     users = []
     for f in sorted(os.listdir(os.path.join(repo, "w2c2"))):
         if f.endswith(".h") and f != "array.h":
@@ -173,19 +490,113 @@ def fast_path(repo):
     return users
 
 
+# ---------------------------------------------------------------------------------- stringbuilder.c
+
 def string_builder(repo):
-    src = _strip(_read(repo, "stringbuilder.c"))
-    m = _need(re.search(r"stringBuilderEnsureCapacity\( StringBuilder\* stringBuilder, const size_t length \) \{ "
-                        r"const size_t lengthWithNull = (.*?); if \(lengthWithNull > stringBuilder->capacity\) \{ (.*?) "
-                        r"void\* newString = realloc\(stringBuilder->string, (.*?)\); MUST \(newString != NULL\) "
-                        r"stringBuilder->string = \(char\*\) newString; stringBuilder->capacity = newCapacity; \} return true; \}", src),
-              "stringbuilder.c: stringBuilderEnsureCapacity shape")
-    names0 = {"length": "length"}
-    with_null = _lean_expr(_P(m.group(1).strip(), names0, "stringbuilder.c lengthWithNull").parse())
-    names = {"lengthWithNull": "length", "stringBuilder->capacity": "capacity", "newCapacity": "newCapacity"}
-    growth = _parse_growth(m.group(2), names, "newCapacity", "stringbuilder.c stringBuilderEnsureCapacity")
-    size = _lean_expr(_P(m.group(3).strip(), names, "stringbuilder.c realloc size").parse())
-    return with_null, growth, size
+    where = "stringbuilder.c stringBuilderEnsureCapacity"
+    src = _src(repo, "stringbuilder.c")
+    try:
+        params, body = C.parse_function(src, "stringBuilderEnsureCapacity", where, ("StringBuilder",))
+    except C.ParseFail as e:
+        _fail(str(e))
+    if [t for t, _n in params] != ["StringBuilder*", "size_t"]:
+        _fail(f"{where}: parameter types {[t for t, _n in params]}")
+    sb, p_len = [n for _t, n in params]
+    body = C.normalize(body)
+    cap_c = ("member", ("id", sb), "capacity")
+    str_c = ("member", ("id", sb), "string")
+
+    def leaf(e):
+        if e == ("id", p_len):
+            return ("length",)
+        if e == cap_c:
+            return ("capacity",)
+        return None
+    sym = Sym(where, leaf)
+    if not body or body[-1][0] != "return" or body[-1][1] is None or not C.is_true(body[-1][1]):
+        _fail(f"{where}: the function must end with `return true;`")
+    body = body[:-1]
+    # leading temporaries (lengthWithNull), then the guard
+    i = 0
+    while i < len(body) and body[i][0] in ("decl", "assign") and sym.growth_stmt(body[i], []):
+        i += 1
+    if i >= len(body) or body[i][0] != "if" or body[i][3] is not None:
+        _fail(f"{where}: the guard `if (length + 1 > capacity)` is expected")
+    guard = body[i]
+    if len(guard[2]) == 1 and guard[2][0][0] == "return" and guard[2][0][1] is not None and C.is_true(guard[2][0][1]):
+        # early return: `if (lengthWithNull <= capacity) return true; <grow>`
+        op, a, b = sym.cmp(("un", "!", guard[1]))
+        inner = body[i + 1:]
+    else:
+        if i != len(body) - 1:
+            _fail(f"{where}: statements after the growth block")
+        op, a, b = sym.cmp(guard[1])
+        inner = guard[2]
+    # orientation: the capacity role has key 1; G is the other side
+    if a == ("capacity",) and op == "<":
+        G = b
+    elif b == ("capacity",) and op == ">":
+        G = a
+    else:
+        _fail(f"{where}: the guard is no longer `<requested length incl. NUL> > capacity`")
+    if _mentions(G, "capacity") or not _mentions(G, "length"):
+        _fail(f"{where}: the guarded length `{G}` must be computed from `length` alone")
+    with_null = _lean_expr(G)
+    # inside: growth over G (`.length` of the generated program stands for G), realloc, NULL check, two stores
+    sym.abstract = (G, ("lwn",)) if G != ("length",) else None
+    for nme, v in list(sym.env.items()):
+        if v is not None:
+            sym.env[nme] = canon(v, sym.abstract)
+    stores = [s for s in inner if s[0] == "assign" and s[1] == cap_c]
+    if len(stores) != 1 or stores[0][2] != "=" or stores[0][3][0] != "id":
+        _fail(f"{where}: expected exactly one store `stringBuilder->capacity = <local>;` in the growth block")
+    sym.target = stores[0][3][1]
+    growth = []
+    j = 0
+    while j < len(inner) and not (inner[j][0] == "decl" and inner[j][1].endswith("*")) and sym.growth_stmt(inner[j], growth):
+        j += 1
+    if not growth:
+        _fail(f"{where}: no assignment to the new capacity `{sym.target}`")
+    ptr = None
+    if j < len(inner) and inner[j][0] == "decl" and inner[j][1].endswith("*"):
+        ptr = inner[j][2]
+        call = C.strip_casts(inner[j][3]) if inner[j][3] is not None else None
+        if call is None or C.is_null(call):
+            j += 1
+            a1 = _ptr_local_assign(inner[j], {ptr}) if j < len(inner) else None
+            call = a1[1] if a1 else None
+    else:
+        ptrs = set(s[2] for s in body[:i] if s[0] == "decl" and s[1].endswith("*"))
+        a1 = _ptr_local_assign(inner[j], ptrs) if j < len(inner) else None
+        ptr, call = a1 if a1 else (None, None)
+    if not call or not _call(call, "realloc", 2) or call[2][0] != str_c:
+        _fail(f"{where}: `realloc(stringBuilder->string, newCapacity)` expected after the growth statements")
+    size_e = sym.value(call[2][1])
+    j += 1
+    if j >= len(inner) or inner[j][0] != "if" or inner[j][3] is not None or C.norm_cond(inner[j][1]) != ("isnull", ("id", ptr)) \
+            or len(inner[j][2]) != 1 or inner[j][2][0][0] != "return" or inner[j][2][0][1] is None or not C.is_false(inner[j][2][0][1]):
+        _fail(f"{where}: `MUST ({ptr} != NULL)` expected after realloc")
+    j += 1
+    seen = set()
+    while j < len(inner) and inner[j][0] == "assign" and inner[j][2] == "=":
+        s = inner[j]
+        if s[1] == str_c and C.strip_casts(s[3]) == ("id", ptr):
+            seen.add("string")
+        elif s[1] == cap_c and s[3] == ("id", sym.target):
+            seen.add("capacity")
+        else:
+            break
+        j += 1
+    if seen != {"string", "capacity"} or j != len(inner):
+        _fail(f"{where}: the growth block must end with the stores `->string = <new block>; ->capacity = <new capacity>;`")
+    size_txt = _lean_expr(size_e)
+    if sym.abstract is not None:
+        # `.length` of the generated growth program stands for the guarded length G: the raw parameter must not occur next to it
+        if any(".length" in t for t in growth + [size_txt]):
+            _fail(f"{where}: the growth block uses the raw `length` parameter next to the guarded length")
+        growth = [t.replace(".lwn", ".length") for t in growth]
+        size_txt = size_txt.replace(".lwn", ".length")
+    return with_null, growth, size_txt
 
 
 def generate(repo):
